@@ -93,13 +93,37 @@ func (q *queueCtx) norm(e ast.Expr) string {
 
 func (q *queueCtx) config() paths.Config {
 	info := q.fi.Pkg.TypesInfo
+	in := newInliner(q.p, q.fi, nil)
 	return paths.Config{
-		Info: info,
+		Info:   info,
+		Inline: in.Body,
+		Expand: in.Expand,
 		Cond: func(c ast.Expr, v bool) *paths.Event {
-			return &paths.Event{Kind: "COND", Arg: fmt.Sprintf("%s=%v", q.norm(c), v), Pos: c.Pos()}
+			return &paths.Event{Kind: "COND", Arg: condKey(info, q.norm, c, v), Pos: c.Pos()}
 		},
 		Classify: func(n ast.Node) []paths.Event {
 			var out []paths.Event
+			// timing bookkeeping of the timed get: DEADLINE(D) = D := now() + timeout;
+			// REMAIN(R<-D) = R = D - now(); GOT(v) = v = GetNoWait()
+			if as, ok := n.(*ast.AssignStmt); ok && len(as.Lhs) == len(as.Rhs) {
+				for i := range as.Lhs {
+					lid, ok := as.Lhs[i].(*ast.Ident)
+					if !ok {
+						continue
+					}
+					rhs := stripConvs(info, as.Rhs[i])
+					if be, ok := rhs.(*ast.BinaryExpr); ok {
+						switch {
+						case be.Op == token.ADD && (isClockCall(info, be.X) || isClockCall(info, be.Y)):
+							out = append(out, paths.Event{Kind: "DEADLINE", Arg: lid.Name, Pos: as.Pos()})
+						case be.Op == token.SUB && isClockCall(info, be.Y):
+							if d, ok := stripConvs(info, be.X).(*ast.Ident); ok {
+								out = append(out, paths.Event{Kind: "REMAIN", Arg: lid.Name + "<-" + d.Name, Pos: as.Pos()})
+							}
+						}
+					}
+				}
+			}
 			ast.Inspect(n, func(m ast.Node) bool {
 				switch v := m.(type) {
 				case *ast.FuncLit:
@@ -108,8 +132,8 @@ func (q *queueCtx) config() paths.Config {
 					arg := ""
 					if len(v.Results) == 1 {
 						arg = q.norm(v.Results[0])
-						if call, ok := v.Results[0].(*ast.CallExpr); ok {
-							_ = call
+						if call, ok := ast.Unparen(v.Results[0]).(*ast.CallExpr); ok && in.Inlinable(call) {
+							return true // the helper's own returns were recorded while it was followed
 						}
 					}
 					defer func() { out = append(out, paths.Event{Kind: "RETVAL", Arg: arg, Pos: v.Pos()}) }()
@@ -167,6 +191,50 @@ func (q *queueCtx) config() paths.Config {
 			return out
 		},
 	}
+}
+
+// stripConvs removes parentheses and type conversions.
+func stripConvs(info *types.Info, e ast.Expr) ast.Expr {
+	for {
+		e = ast.Unparen(e)
+		call, ok := e.(*ast.CallExpr)
+		if !ok || len(call.Args) != 1 {
+			return e
+		}
+		if tv, ok := info.Types[call.Fun]; !ok || !tv.IsType() {
+			return e
+		}
+		e = call.Args[0]
+	}
+}
+
+// isClockCall: a reading of the current time (dateutil.SystemNow/Now..., time.Now()...).
+func isClockCall(info *types.Info, e ast.Expr) bool {
+	found := false
+	ast.Inspect(e, func(n ast.Node) bool {
+		call, ok := n.(*ast.CallExpr)
+		if !ok {
+			return true
+		}
+		var id *ast.Ident
+		switch f := call.Fun.(type) {
+		case *ast.Ident:
+			id = f
+		case *ast.SelectorExpr:
+			id = f.Sel
+		}
+		if id == nil {
+			return true
+		}
+		if fn, _ := info.Uses[id].(*types.Func); fn != nil && fn.Pkg() != nil {
+			pp := fn.Pkg().Path()
+			if (strings.HasSuffix(pp, "/util/dateutil") && (strings.Contains(fn.Name(), "Now") || strings.Contains(fn.Name(), "Millis"))) || (pp == "time" && fn.Name() == "Now") {
+				found = true
+			}
+		}
+		return true
+	})
+	return found
 }
 
 func recvName(fi *core.FuncInfo) string {
@@ -262,14 +330,14 @@ func runC11(p *core.Program, r *core.Report) {
 			for _, pa := range ps {
 				i2 := pa.IndexArg("REMOVEFIRST", "2")
 				if i2 >= 0 {
-					j := pa.IndexArg("COND", "size1>0=false")
+					j := pa.IndexArg("COND", cc("size1", ">", "0", false))
 					if j < 0 || j > i2 {
 						ok, why = false, "queue 2 is served on a path that did not find queue 1 empty: "+pa.String()
 					}
 				}
 				i1 := pa.IndexArg("REMOVEFIRST", "1")
 				if i1 >= 0 {
-					j := pa.IndexArg("COND", "size1>0=true")
+					j := pa.IndexArg("COND", cc("size1", ">", "0", true))
 					if j < 0 || j > i1 {
 						ok, why = false, "queue 1 is served without testing it is non-empty: "+pa.String()
 					}
@@ -287,9 +355,9 @@ func roomBefore(pa paths.Path, idx int, q string) bool {
 			continue
 		}
 		switch pa[i].Arg {
-		case "capacity" + q + "<=0=true", "size" + q + "<capacity" + q + "=true", "size" + q + ">=capacity" + q + "=false":
+		case cc("capacity"+q, "<=", "0", true), cc("size"+q, "<", "capacity"+q, true):
 			return true
-		case "capacity" + q + "<=0=false":
+		case cc("capacity"+q, "<=", "0", false):
 			continue
 		}
 		if strings.Contains(pa[i].Arg, "capacity") {
@@ -321,9 +389,9 @@ func c11Put(r *core.Report, name, pos string, ps []paths.Path, q string) {
 			why = append(why, "a refusing path does not return false: "+pa.String())
 		}
 		if i := pa.Index("FAILED"); i >= 0 {
-			g := pa.IndexArg("COND", "failed"+q+"!=nil=true")
+			g := pa.IndexArg("COND", cc("failed"+q, "!=", "nil", true))
 			if g < 0 {
-				g = pa.IndexArg("COND", "Failed"+q+"!=nil=true")
+				g = pa.IndexArg("COND", cc("Failed"+q, "!=", "nil", true))
 			}
 			if g < 0 || g > i {
 				ok = false
@@ -362,7 +430,7 @@ func c11PutForce(r *core.Report, name, pos string, ps []paths.Path, q string) {
 				// preceded by loop condition true
 				g := -1
 				for j := i - 1; j >= 0; j-- {
-					if pa[j].Kind == "COND" && pa[j].Arg == "size"+q+">=capacity"+q+"=true" {
+					if pa[j].Kind == "COND" && pa[j].Arg == cc("size"+q, ">=", "capacity"+q, true) {
 						g = j
 						break
 					}
@@ -383,7 +451,7 @@ func c11PutForce(r *core.Report, name, pos string, ps []paths.Path, q string) {
 				}
 				nilPath := false
 				for j := i + 1; j < len(pa) && pa[j].Kind != "ENDLOOP"; j++ {
-					if pa[j].Kind == "COND" && strings.HasSuffix(pa[j].Arg, "!=nil=false") {
+					if pa[j].Kind == "COND" && strings.HasSuffix(pa[j].Arg, "==nil=true") {
 						nilPath = true
 					}
 				}
@@ -395,7 +463,7 @@ func c11PutForce(r *core.Report, name, pos string, ps []paths.Path, q string) {
 			if e.Kind == "OVERFLOWED" {
 				g := false
 				for j := i - 1; j >= 0; j-- {
-					if pa[j].Kind == "COND" && strings.HasSuffix(pa[j].Arg, "!=nil=true") {
+					if pa[j].Kind == "COND" && strings.HasSuffix(pa[j].Arg, "==nil=false") {
 						g = true
 						break
 					}
@@ -498,7 +566,7 @@ func c11GetNoWait(r *core.Report, name, pos string, ps []paths.Path) {
 		}
 		if i := pa.Index("REMOVEFIRST"); i >= 0 {
 			q := pa[i].Arg
-			g := pa.IndexArg("COND", "size"+q+">0=true")
+			g := pa.IndexArg("COND", cc("size"+q, ">", "0", true))
 			if g < 0 || g > i {
 				ok = false
 				why = append(why, "removes without testing non-emptiness")
@@ -515,74 +583,87 @@ func c11GetNoWait(r *core.Report, name, pos string, ps []paths.Path) {
 	}
 }
 
+// c11Timeout: a timed get may come back empty-handed only once the time is up. On every path that
+// returns without an element, the decision to give up must be the outcome "remaining time <= 0" of a
+// comparison whose left side was recomputed as deadline - now() after the last attempt, the deadline
+// having been fixed as now() + timeout before the retry loop. Variable names, loop form (three-clause,
+// `for {}` with returns, break vs. return) and comparison spelling do not matter.
 func c11Timeout(p *core.Program, r *core.Report, name string, fi *core.FuncInfo) {
 	pos := p.Pos(fi.Decl.Pos())
-	var loop *ast.ForStmt
-	ast.Inspect(fi.Decl.Body, func(n ast.Node) bool {
-		if f, ok := n.(*ast.ForStmt); ok && loop == nil {
-			loop = f
-		}
-		return true
-	})
-	if loop == nil {
-		r.Undec("C11.timeout", name, pos, "no retry loop")
+	q := &queueCtx{p: p, fi: fi, recv: recvName(fi)}
+	ps, over := paths.Enumerate(fi.Decl.Body, q.config())
+	if over {
+		r.Undec("C11.timeout", name, pos, "too many paths")
 		return
 	}
-	ok := true
 	var why []string
-	if loop.Cond == nil || strings.ReplaceAll(types.ExprString(loop.Cond), " ", "") != "v==nil" {
-		ok = false
-		why = append(why, "retry loop does not continue exactly while nothing was obtained")
-	}
-	nbreak := 0
-	var visit func(n ast.Node, guard string)
-	visit = func(n ast.Node, guard string) {
-		ast.Inspect(n, func(m ast.Node) bool {
-			switch v := m.(type) {
-			case *ast.IfStmt:
-				if m != n {
-					visit(v.Body, strings.ReplaceAll(types.ExprString(v.Cond), " ", ""))
-					if v.Else != nil {
-						visit(v.Else, "!"+strings.ReplaceAll(types.ExprString(v.Cond), " ", ""))
-					}
-					return false
-				}
-			case *ast.BranchStmt:
-				if v.Tok == token.BREAK {
-					nbreak++
-					if guard != "t<=0" {
-						ok = false
-						why = append(why, "loop is left under `"+guard+"` instead of `t<=0`")
-					}
-				}
-			case *ast.ReturnStmt:
-				ok = false
-				why = append(why, "returns from inside the retry loop")
-			}
-			return true
-		})
-	}
-	visit(loop.Body, "")
-	// t recomputed from the deadline
-	recomputed := false
-	ast.Inspect(loop.Body, func(m ast.Node) bool {
-		if as, isA := m.(*ast.AssignStmt); isA && len(as.Lhs) == 1 && types.ExprString(as.Lhs[0]) == "t" {
-			s := strings.ReplaceAll(types.ExprString(as.Rhs[0]), " ", "")
-			if strings.Contains(s, "timeto-") {
-				recomputed = true
+	nEmpty, nTries := 0, 0
+	for _, pa := range ps {
+		if pa.Has("CUT") {
+			continue // left a `for {}` by the unrolling bound, not by the code
+		}
+		if pa.Has("GETNOWAIT") {
+			nTries++
+		}
+		// empty-handed: returns nil, or returns a variable last known to be nil
+		ret := ""
+		for _, e := range pa {
+			if e.Kind == "RETVAL" {
+				ret = e.Arg
 			}
 		}
-		return true
-	})
-	if !recomputed {
-		ok = false
-		why = append(why, "remaining time is not recomputed from the deadline inside the loop")
+		empty := ret == "nil"
+		if !empty && ret != "" {
+			for _, e := range pa {
+				if e.Kind == "COND" && (e.Arg == cc(ret, "==", "nil", true) || e.Arg == cc(ret, "==", "nil", false)) {
+					empty = e.Arg == cc(ret, "==", "nil", true)
+				}
+			}
+		}
+		if !empty {
+			continue
+		}
+		nEmpty++
+		// the last REMAIN and the comparison of its variable with 0 after it
+		ri := -1
+		for i, e := range pa {
+			if e.Kind == "REMAIN" {
+				ri = i
+			}
+		}
+		if ri < 0 {
+			why = append(why, "gives up without having recomputed the remaining time from the deadline: "+pa.String())
+			continue
+		}
+		parts := strings.SplitN(pa[ri].Arg, "<-", 2)
+		rv, dv := parts[0], parts[1]
+		di := pa.IndexArg("DEADLINE", dv)
+		li := pa.Index("LOOP")
+		if di < 0 || (li >= 0 && di > li) {
+			why = append(why, "the deadline "+dv+" is not fixed as now()+timeout before the retry loop")
+		}
+		up := false
+		for _, e := range pa[ri+1:] {
+			if e.Kind == "COND" && e.Arg == cc(rv, "<=", "0", true) {
+				up = true
+			}
+			if e.Kind == "COND" && e.Arg == cc(rv, "<=", "0", false) {
+				up = false
+			}
+		}
+		if !up {
+			why = append(why, "returns empty-handed on a path where the remaining time ("+rv+") was not found to be <= 0: "+pa.String())
+		}
+		// no attempt is skipped: an attempt precedes the give-up
+		if !pa.Has("GETNOWAIT") {
+			why = append(why, "gives up without trying to get an element")
+		}
 	}
-	if nbreak != 1 {
-		ok = false
-		why = append(why, fmt.Sprintf("%d break statements", nbreak))
+	if nEmpty == 0 || nTries == 0 {
+		r.Undec("C11.timeout", name, pos, "no polling retry structure found (no path that tries GetNoWait and gives up on a recomputed deadline)")
+		return
 	}
-	if ok {
+	if len(why) == 0 {
 		r.OK("C11.timeout", name, pos, "gives up only when deadline - now <= 0")
 	} else {
 		r.Viol("C11.timeout", name, pos, strings.Join(uniq(why), "; "))
